@@ -3,6 +3,8 @@
 use crate::c04::tree as tree_strategy;
 use crate::tree::*;
 use dasp_frame::Frame;
+use dasp_signal::envelope::SignalEnvelope;
+use dasp_signal::rms::SignalRms;
 use dasp_signal::{self as signal, Signal};
 use proptest::prelude::*;
 use serde::{Deserialize, Serialize};
@@ -319,6 +321,30 @@ pub enum CombCase {
     /// `until_exhausted()` over a signal whose exhaustion flag would flip back if it were pulled once more: a buffered
     /// signal (capacity >= 2) or an upsampling converter; after the first None the iterator must stay finished
     StaysFinished { src_len: u64, cap: usize, upsample: bool },
+    /// a length-preserving wrapper that is not a tree node, observed only through the `Signal` trait (generic code):
+    /// 0 = `.rms(ring)`, 1 = `.detect_envelope(detector)`, 4 = rms under detect_envelope (the `boxed` module of this
+    /// version is never compiled - its cfg attribute says `features` - so there is no `Box<S>: Signal` to observe)
+    Wrapped { src_len: u64, kind: u8 },
+}
+
+/// exhaustion of a length-preserving signal as generic code sees it (trait method calls only)
+fn len_preserving<S: Signal>(mk: &dyn Fn() -> S, n: u64, what: &str) -> CheckResult {
+    let mut s = mk();
+    for k in 0..n + 3 {
+        let ex = s.is_exhausted();
+        ensure!(ex == (k >= n), "{} over a source of {} frames: before frame {} is_exhausted() = {}", what, n, k, ex);
+        let _ = s.next();
+    }
+    let c = mk().until_exhausted().take(n as usize + 50).count() as u64;
+    ensure!(c == n, "{} over a source of {} frames: until_exhausted() yields {} frames", what, n, c);
+    let c = mk().map(|f| f).until_exhausted().take(n as usize + 50).count() as u64;
+    ensure!(c == n, "{} over a source of {} frames, under map: until_exhausted() yields {} frames", what, n, c);
+    let mut s = mk();
+    let c = s.by_ref().until_exhausted().take(n as usize + 50).count() as u64;
+    ensure!(c == n, "{} over a source of {} frames, through by_ref(): until_exhausted() yields {} frames", what, n, c);
+    let c = mk().take(n as usize + 2).count() as u64;
+    ensure!(c == n + 2, "{}: take(n + 2) yields {} frames, expected {} (equilibrium padding)", what, c, n + 2);
+    Ok(())
 }
 
 fn comb_src(len: u64) -> signal::FromIterator<std::vec::IntoIter<f64>> {
@@ -441,6 +467,20 @@ pub fn check_comb(c: &CombCase, st: &mut Stats) -> CheckResult {
             }
             st.nt(*cap >= 2);
             st.class("until_exhausted polled again after None");
+            Ok(())
+        }
+        CombCase::Wrapped { src_len, kind } => {
+            use dasp_envelope::Detector;
+            use dasp_ring_buffer::Fixed;
+            let n = *src_len;
+            match kind {
+                0 => len_preserving(&|| comb_src(n).rms(Fixed::from(vec![0.0f64; 3])), n, "rms adaptor")?,
+                1 => len_preserving(&|| comb_src(n).detect_envelope(Detector::peak(1.0, 2.0)), n, "detect_envelope adaptor")?,
+                4 => len_preserving(&|| comb_src(n).rms(Fixed::from([0.0f64; 2])).detect_envelope(Detector::rms(Fixed::from([0.0f64; 4]), 0.0, 3.0)), n, "rms adaptor under detect_envelope (rms detector)")?,
+                _ => return Err("bad case: unknown wrapper kind".into()),
+            }
+            st.nt(true);
+            st.class("feature-gated adaptors seen through the Signal trait");
             Ok(())
         }
         CombCase::HzSignal { len, scaled } => {
@@ -692,6 +732,9 @@ pub fn run(ctx: &mut Ctx) {
         for scaled in [false, true] {
             cases.push(CombCase::HzSignal { len: src_len, scaled });
         }
+        for kind in [0u8, 1, 4] {
+            cases.push(CombCase::Wrapped { src_len, kind });
+        }
         for cap in 1..=5usize {
             for upsample in [false, true] {
                 cases.push(CombCase::StaysFinished { src_len, cap, upsample });
@@ -701,6 +744,7 @@ pub fn run(ctx: &mut Ctx) {
     ctx.require_class("converter at ratio exactly 1 over a finite source");
     ctx.require_class("frequency signal (rate.hz) used as a signal");
     ctx.require_class("until_exhausted polled again after None");
+    ctx.require_class("feature-gated adaptors seen through the Signal trait");
     ctx.enumerate("converter-and-hz-exhaustion", true, cases.into_iter(), check_comb);
     let bus = (0u64..10, 1usize..=4, proptest::collection::vec(0usize..6, 0..40), proptest::collection::vec(0usize..30, 0..3)).prop_map(|(src_len, outputs, schedule, late)| CombCase::Bus { src_len, outputs, schedule, late });
     ctx.prop("bus-output-exhaustion", ctx.pick(5_000, 50_000), bus, check_comb);
